@@ -111,11 +111,47 @@ Lemma same_but_acl_set_acl g o ty a :
   same_but_acl g (put_obj g o (obj_set_acl (objs g o) ty a)).
 Proof. intros Ht. apply same_but_acl_put_obj; auto. Qed.
 
+(* the task-local obligation of a pc (the second part of [task_ok]) *)
+Definition pc_ok (g : gst) (t : tid) (p : pc) : Prop :=
+  match p with
+  | PJoinNotify ch o created n _ =>
+      cmap g ch = Some o /\ In n (members (objs g o)) /\ wl g o = Some t /\ (created = true -> members (objs g o) = [n])
+  | PLeaveN1 ch o n w _ =>
+      cmap g ch = Some o /\ In n (members (objs g o)) /\ wl g o = Some t /\ w = is_owner (objs g o) n
+  | PLeaveN2 ch o _ _ => cmap g ch = Some o /\ wl g o = Some t
+  | PLeaveWait ch o _ _ | PJoinWait ch o _ _ | PBcastWait ch o _ _ | PMembersWait ch o _
+  | PSetAclWait ch o _ _ _ _ | PGetAclWait ch o _ _ => o < next_oid g /\ forall ch', cmap g ch' = Some o -> ch' = ch
+  | PDone => False
+  | _ => True
+  end.
+
+Lemma task_ok_pc_ok g t k : task_ok g t k -> pc_ok g t (t_pc k).
+Proof. intros [_ H]. exact H. Qed.
+
+Lemma pc_ok_not_done g t p : pc_ok g t p -> p <> PDone.
+Proof. intros H ->. exact H. Qed.
+
+Lemma pc_ok_frame g g' t p : same_but_acl g g' -> pc_ok g t p -> pc_ok g' t p.
+Proof.
+  intros (Hn & Hc & Hi & Hr & Hw & Hu & Hm & Ho & Ht) H2. unfold pc_ok.
+  destruct p; auto; unfold is_owner; rewrite ?Hc, ?Hm, ?Hw, ?Hn, ?Ho; exact H2.
+Qed.
+
 Lemma task_ok_frame g g' t k : same_but_acl g g' -> task_ok g t k -> task_ok g' t k.
 Proof.
-  intros (Hn & Hc & Hi & Hr & Hw & Hu & Hm & Ho & Ht) [H1 H2]. unfold task_ok.
-  rewrite Hu. split; [exact H1|].
-  destruct (t_pc k); auto; unfold is_owner; rewrite ?Hc, ?Hm, ?Hw, ?Hn, ?Ho; exact H2.
+  intros F [H1 H2]. pose proof F as (Hn & Hc & Hi & Hr & Hw & Hu & Hm & Ho & Ht). unfold task_ok.
+  rewrite Hu. split; [exact H1|]. exact (pc_ok_frame _ _ _ _ F H2).
+Qed.
+
+(* a task that finds the object o under the name ch and waits for it: the obligation of its waiting pc *)
+Lemma wait_ok s ch o :
+  CInv s -> cmap (cg s) ch = Some o ->
+  o < next_oid (cg s) /\ forall ch', cmap (cg s) ch' = Some o -> ch' = ch.
+Proof.
+  intros I H. split.
+  - destruct (N.lt_ge_cases o (next_oid (cg s))) as [L|L]; [exact L|].
+    exfalso. destruct (i_fresh _ I o L) as (_ & _ & F). exact (F ch H).
+  - intros ch' H'. exact (i_inj _ I ch' ch o H' H).
 Qed.
 
 (* the global state changes at most in allow-lists; clean-up tasks stay *)
@@ -173,9 +209,14 @@ Qed.
 (* a pc without a lock and without a task-local obligation in [task_ok] *)
 Definition plain_pc (p : pc) : Prop :=
   match p with
-  | PJoinNotify _ _ _ _ _ | PLeaveN1 _ _ _ _ _ | PLeaveN2 _ _ _ _ | PLeaveWait _ _ _ _ | PDone => False
+  | PJoinNotify _ _ _ _ _ | PLeaveN1 _ _ _ _ _ | PLeaveN2 _ _ _ _ | PDone => False
+  | PLeaveWait _ _ _ _ | PJoinWait _ _ _ _ | PBcastWait _ _ _ _ | PMembersWait _ _ _
+  | PSetAclWait _ _ _ _ _ _ | PGetAclWait _ _ _ _ => False
   | _ => True
   end.
+
+Lemma plain_pc_ok g t p : plain_pc p -> pc_ok g t p.
+Proof. destruct p; cbn [plain_pc pc_ok]; intros H; try exact I; destruct H. Qed.
 
 Lemma plain_pc_holds p : plain_pc p -> holds p = None.
 Proof. destruct p; cbn [plain_pc holds]; intros H; try reflexivity; destruct H. Qed.
@@ -187,20 +228,21 @@ Lemma plain_pc_not_notify p ch o c n id : plain_pc p -> p <> PJoinNotify ch o c 
 Proof. intros H ->. exact H. Qed.
 
 Lemma task_ok_with_pc g t k c p :
-  t_conn k = Some c -> plain_pc p -> task_ok g t k -> task_ok g t (with_pc k p).
+  t_conn k = Some c -> pc_ok g t p -> task_ok g t k -> task_ok g t (with_pc k p).
 Proof.
   intros Hc Hp [H1 _]. unfold task_ok in *. cbn [with_pc t_conn t_me t_rest t_pc].
-  rewrite Hc in *. split; [exact H1|].
-  destruct p; try exact I; destruct Hp.
+  rewrite Hc in *. split; [exact H1|exact Hp].
 Qed.
 
-(* a request task whose old and new pc hold no lock moves to the new pc (and at most allow-lists change) *)
-Lemma CInv_frame_set_pc s g' t k c p :
+(* a request task whose old and new pc hold no lock moves to the new pc, whose obligation holds
+   (and at most allow-lists change) *)
+Lemma CInv_frame_set_pc_ok s g' t k c p :
   CInv s -> same_but_acl (cg s) g' ->
-  tlookup t (tasks s) = Some k -> t_conn k = Some c -> holds (t_pc k) = None -> plain_pc p ->
+  tlookup t (tasks s) = Some k -> t_conn k = Some c -> holds (t_pc k) = None ->
+  holds p = None -> pc_ok (cg s) t p ->
   CInv {| cg := g'; tasks := tset t (with_pc k p) (tasks s); next_tid := next_tid s |}.
 Proof.
-  intros I F Hl Hc Hh Hp.
+  intros I F Hl Hc Hh Hhp Hp.
   pose proof (i_tids _ I) as [nd lt].
   apply (CInv_frame s); cbn [cg tasks next_tid]; auto.
   - intros t' k' Hn Hin. apply In_tset_other; [exact Hin|].
@@ -215,8 +257,24 @@ Proof.
     + eapply task_ok_with_pc; eauto. apply (i_tasks _ I). apply tlookup_In; exact Hl.
     + apply (i_tasks _ I); exact Hin.
   - intros t' k' ch o n id Hin Hpc. apply In_tset in Hin. destruct Hin as [[-> ->]|Hin].
-    + cbn [with_pc t_pc] in Hpc. exfalso. eapply plain_pc_not_notify; eauto.
+    + cbn [with_pc t_pc] in Hpc. rewrite Hpc in Hhp. discriminate Hhp.
     + eapply (i_join_guest _ I); eauto.
+Qed.
+
+Lemma CInv_frame_set_pc s g' t k c p :
+  CInv s -> same_but_acl (cg s) g' ->
+  tlookup t (tasks s) = Some k -> t_conn k = Some c -> holds (t_pc k) = None -> plain_pc p ->
+  CInv {| cg := g'; tasks := tset t (with_pc k p) (tasks s); next_tid := next_tid s |}.
+Proof.
+  intros I F Hl Hc Hh Hp. eapply CInv_frame_set_pc_ok; eauto using plain_pc_holds, plain_pc_ok.
+Qed.
+
+Lemma CInv_set_pc_ok s t k c p :
+  CInv s -> tlookup t (tasks s) = Some k -> t_conn k = Some c -> holds (t_pc k) = None ->
+  holds p = None -> pc_ok (cg s) t p ->
+  CInv {| cg := cg s; tasks := tset t (with_pc k p) (tasks s); next_tid := next_tid s |}.
+Proof.
+  intros I. eapply CInv_frame_set_pc_ok; eauto. apply same_but_acl_refl. apply (i_targets _ I).
 Qed.
 
 Lemma CInv_set_pc s t k c p :
@@ -259,73 +317,79 @@ Qed.
 Lemma CInv_after_seg_frame s g' t k c p os hint :
   CInv s -> same_but_acl (cg s) g' ->
   tlookup t (tasks s) = Some k -> t_conn k = Some c -> holds (t_pc k) = None ->
-  p = PDone \/ plain_pc p ->
+  p = PDone \/ (holds p = None /\ pc_ok (cg s) t p) ->
   CInv (after_seg s t k (g', p, os) hint).
 Proof.
-  intros I F Hl Hc Hh [->|Hp]; unfold after_seg.
+  intros I F Hl Hc Hh [->|[Hhp Hp]]; unfold after_seg.
   - unfold settle. rewrite Hc. eapply CInv_frame_remove; eauto.
   - replace (settle t k p hint (tasks s)) with (tset t (with_pc k p) (tasks s)).
-    + eapply CInv_frame_set_pc; eauto.
+    + eapply CInv_frame_set_pc_ok; eauto.
     + destruct p; try reflexivity. destruct Hp.
 Qed.
 
 (* ... that leaves the global state alone *)
 Lemma CInv_after_seg_same s t k c p os hint :
   CInv s -> tlookup t (tasks s) = Some k -> t_conn k = Some c -> holds (t_pc k) = None ->
-  p = PDone \/ plain_pc p ->
+  p = PDone \/ (holds p = None /\ pc_ok (cg s) t p) ->
   CInv (after_seg s t k (cg s, p, os) hint).
 Proof.
   intros I. eapply CInv_after_seg_frame; eauto. apply same_but_acl_refl. apply (i_targets _ I).
 Qed.
 
 (* ---------- broadcast and the listings ---------- *)
+(* what a segment that does not end leaves behind: a pc without a lock whose obligation holds *)
+Definition next_ok (g : gst) (t : tid) (p : pc) : Prop := p = PDone \/ (holds p = None /\ pc_ok g t p).
+
+Definition wait_fact (g : gst) : Prop :=
+  forall ch o, cmap g ch = Some o -> o < next_oid g /\ forall ch', cmap g ch' = Some o -> ch' = ch.
+
 (* these segments leave the global state alone *)
 Lemma seg_other_shape cf t tc me g p ok hint :
-  other_pc p -> p <> PDone ->
-  exists p' os, seg cf t tc me g p ok hint = (g, p', os) /\ (p' = PDone \/ plain_pc p').
+  wait_fact g -> pc_ok g t p -> other_pc p ->
+  exists p' os, seg cf t tc me g p ok hint = (g, p', os) /\ next_ok g t p'.
 Proof.
-  assert (BR : forall ch o pl id, exists p' os, bcast_read tc me g ch o pl id = (g, p', os) /\ (p' = PDone \/ plain_pc p')).
+  intros W.
+  assert (BR : forall ch o pl id, exists p' os, bcast_read tc me g ch o pl id = (g, p', os) /\ next_ok g t p').
   { intros. unfold bcast_read. destruct (negb _); [|destruct (negb _)];
       eexists _, _; (split; [reflexivity|left; reflexivity]). }
-  assert (BL : forall ch pl id, exists p' os, bcast_lookup tc me g ch pl id = (g, p', os) /\ (p' = PDone \/ plain_pc p')).
-  { intros. unfold bcast_lookup. destruct (cmap g ch) as [o|].
+  assert (BL : forall ch pl id, exists p' os, bcast_lookup tc me g ch pl id = (g, p', os) /\ next_ok g t p').
+  { intros. unfold bcast_lookup. destruct (cmap g ch) as [o|] eqn:E.
     - destruct (lock_free g o); [apply BR|].
-      eexists _, _; split; [reflexivity|right; exact I].
+      eexists _, _; split; [reflexivity|right; split; [reflexivity|exact (W _ _ E)]].
     - eexists _, _; split; [reflexivity|left; reflexivity]. }
-  assert (MR : forall o id, exists p' os, members_read tc me g o id = (g, p', os) /\ (p' = PDone \/ plain_pc p')).
+  assert (MR : forall o id, exists p' os, members_read tc me g o id = (g, p', os) /\ next_ok g t p').
   { intros. unfold members_read. destruct (negb _); eexists _, _; (split; [reflexivity|left; reflexivity]). }
-  assert (GR : forall o ty id, exists p' os, get_acl_read tc me g o ty id = (g, p', os) /\ (p' = PDone \/ plain_pc p')).
+  assert (GR : forall o ty id, exists p' os, get_acl_read tc me g o ty id = (g, p', os) /\ next_ok g t p').
   { intros. unfold get_acl_read. destruct (negb _); eexists _, _; (split; [reflexivity|left; reflexivity]). }
-  intros Ho Hd. destruct p as [r| | | | | | | | | | |]; try destruct r; cbn [other_pc] in Ho; try destruct Ho; cbn [seg].
+  intros Hp Ho. destruct p as [r| | | | | | | | | | |]; try destruct r; cbn [other_pc] in Ho; try destruct Ho; cbn [seg].
   - destruct (fwd_payload cf); [|apply BL].
-    eexists _, _; split; [reflexivity|right; exact I].
-  - destruct (cmap g ch) as [o|].
+    eexists _, _; split; [reflexivity|right; split; [reflexivity|exact I]].
+  - destruct (cmap g ch) as [o|] eqn:E.
     + destruct (lock_free g o); [apply MR|].
-      eexists _, _; split; [reflexivity|right; exact I].
+      eexists _, _; split; [reflexivity|right; split; [reflexivity|exact (W _ _ E)]].
     + eexists _, _; split; [reflexivity|left; reflexivity].
   - eexists _, _; split; [reflexivity|left; reflexivity].
-  - destruct (cmap g ch) as [o|].
+  - destruct (cmap g ch) as [o|] eqn:E.
     + destruct (lock_free g o); [apply GR|].
-      eexists _, _; split; [reflexivity|right; exact I].
+      eexists _, _; split; [reflexivity|right; split; [reflexivity|exact (W _ _ E)]].
     + eexists _, _; split; [reflexivity|left; reflexivity].
   - destruct ok; [apply BL|]. eexists _, _; split; [reflexivity|left; reflexivity].
   - destruct (lock_free g o); [apply BR|].
-    eexists _, _; split; [reflexivity|right; exact I].
+    eexists _, _; split; [reflexivity|right; split; [reflexivity|exact Hp]].
   - destruct (lock_free g o); [apply MR|].
-    eexists _, _; split; [reflexivity|right; exact I].
+    eexists _, _; split; [reflexivity|right; split; [reflexivity|exact Hp]].
   - destruct (lock_free g o); [apply GR|].
-    eexists _, _; split; [reflexivity|right; exact I].
-  - congruence.
+    eexists _, _; split; [reflexivity|right; split; [reflexivity|exact Hp]].
+  - destruct Hp.
 Qed.
 
-(* a task at one of these pcs is a request, not finished, and holds no lock *)
+(* a task at one of these pcs is a request and holds no lock *)
 Lemma other_pc_request g t k :
-  task_ok g t k -> other_pc (t_pc k) -> (exists c, t_conn k = Some c) /\ t_pc k <> PDone /\ holds (t_pc k) = None.
+  task_ok g t k -> other_pc (t_pc k) -> (exists c, t_conn k = Some c) /\ holds (t_pc k) = None.
 Proof.
   unfold task_ok. intros [H1 H2] Ho.
   destruct (t_pc k) as [r| | | | | | | | | | |]; try destruct r; cbn [other_pc] in Ho; try destruct Ho;
-    try destruct H2;
-    (split; [|split; [discriminate|reflexivity]]);
+    (split; [|reflexivity]);
     (destruct (t_conn k) as [c|]; [exists c; reflexivity|destruct H1 as [_ []]]).
 Qed.
 
@@ -335,8 +399,9 @@ Theorem seg_other_preserves cf s t k ok hint :
 Proof.
   intros _ I Hl Ho.
   pose proof (i_tasks _ I t k (tlookup_In _ _ _ Hl)) as Hok.
-  destruct (other_pc_request _ _ _ Hok Ho) as ((c & Hc) & Hd & Hh).
-  destruct (seg_other_shape cf t (t_conn k) (t_me k) (cg s) (t_pc k) ok hint Ho Hd) as (p' & os & -> & Hp).
+  destruct (other_pc_request _ _ _ Hok Ho) as ((c & Hc) & Hh).
+  destruct (seg_other_shape cf t (t_conn k) (t_me k) (cg s) (t_pc k) ok hint
+              (fun ch o => wait_ok s ch o I) (task_ok_pc_ok _ _ _ Hok) Ho) as (p' & os & -> & Hp).
   eapply CInv_after_seg_same; eauto.
 Qed.
 
@@ -346,23 +411,23 @@ Print Assumptions seg_other_preserves.
 (* the segment changes at most one allow-list (and the delivery list cached from it) *)
 Lemma seg_acl_shape cf t tc me g p ok hint :
   (forall o, targets (objs g o) = filter (allowed (racl (objs g o))) (members (objs g o))) ->
-  acl_pc p ->
-  exists g' p' os, seg cf t tc me g p ok hint = (g', p', os) /\ same_but_acl g g' /\ (p' = PDone \/ plain_pc p').
+  wait_fact g -> pc_ok g t p -> acl_pc p ->
+  exists g' p' os, seg cf t tc me g p ok hint = (g', p', os) /\ same_but_acl g g' /\ next_ok g t p'.
 Proof.
-  intros Ht.
+  intros Ht W.
   pose proof (same_but_acl_refl g Ht) as R.
   assert (SL : forall o ty adding us id, exists g' p' os,
-             set_acl_locked cf tc me g o ty adding us id = (g', p', os) /\ same_but_acl g g' /\ (p' = PDone \/ plain_pc p')).
+             set_acl_locked cf tc me g o ty adding us id = (g', p', os) /\ same_but_acl g g' /\ next_ok g t p').
   { intros. unfold set_acl_locked. destruct (negb _); [|destruct (_ <? _)];
       eexists _, _, _; (split; [reflexivity|split; [|left; reflexivity]]); auto.
     apply same_but_acl_set_acl; exact Ht. }
-  intros Ha. destruct p as [r| | | | | | | | | | |]; try destruct r; cbn [acl_pc] in Ha; try destruct Ha; cbn [seg].
-  - destruct (cmap g ch) as [o|].
+  intros Hp Ha. destruct p as [r| | | | | | | | | | |]; try destruct r; cbn [acl_pc] in Ha; try destruct Ha; cbn [seg].
+  - destruct (cmap g ch) as [o|] eqn:E.
     + destruct (lock_free g o); [apply SL|].
-      eexists _, _, _; split; [reflexivity|split; [exact R|right; exact I]].
+      eexists _, _, _; split; [reflexivity|split; [exact R|right; split; [reflexivity|exact (W _ _ E)]]].
     + eexists _, _, _; split; [reflexivity|split; [exact R|left; reflexivity]].
   - destruct (lock_free g o); [apply SL|].
-    eexists _, _, _; split; [reflexivity|split; [exact R|right; exact I]].
+    eexists _, _, _; split; [reflexivity|split; [exact R|right; split; [reflexivity|exact Hp]]].
 Qed.
 
 (* a task at one of these pcs is a request and holds no lock *)
@@ -383,7 +448,8 @@ Proof.
   intros _ I Hl Ha.
   pose proof (i_tasks _ I t k (tlookup_In _ _ _ Hl)) as Hok.
   destruct (acl_pc_request _ _ _ Hok Ha) as ((c & Hc) & Hh).
-  destruct (seg_acl_shape cf t (t_conn k) (t_me k) (cg s) (t_pc k) ok hint (i_targets _ I) Ha)
+  destruct (seg_acl_shape cf t (t_conn k) (t_me k) (cg s) (t_pc k) ok hint (i_targets _ I)
+              (fun ch o => wait_ok s ch o I) (task_ok_pc_ok _ _ _ Hok) Ha)
     as (g' & p' & os & -> & F & Hp).
   eapply CInv_after_seg_frame; eauto.
 Qed.
